@@ -136,7 +136,10 @@ Inductive case :=
 | CPool (sizes : list N) (maxt : N) (ops : list pop) (obs : list pobs)
 (* a history of Matcher()/Close() calls on one sync.Pool with the buffer ids seen, and the
    ids drained from the pool at the end (sorted) *)
-| CShard (ops : list mop) (drained : list N).
+| CShard (ops : list mop) (drained : list N)
+(* one Series request through the real ProxyStore over that many stores (sharded or not),
+   run to the end; whether some buffer then comes out of the proxy's pool twice *)
+| CProxy (nstores : nat) (sharded : bool) (dup : bool).
 
 Definition pobs_eqb (a b : pobs) : bool :=
   Bool.eqb (fst (fst a)) (fst (fst b)) && (snd (fst a) =? snd (fst b)) && (snd a =? snd b).
@@ -148,6 +151,21 @@ Fixpoint insert_sorted (x : N) (l : list N) : list N :=
   end.
 Definition sort_n (l : list N) : list N := fold_right insert_sorted [] l.
 
+Fixpoint nodup_n (l : list N) : bool :=
+  match l with
+  | [] => true
+  | a :: r => negb (existsb (N.eqb a) r) && nodup_n r
+  end.
+
+(* what the request does to the buffers: one matcher per store, each closed twice (by the
+   loser tree when its stream is exhausted and by the deferred Close) *)
+Fixpoint proxy_news (sharded : bool) (k : nat) (id : N) : list mop :=
+  match k with O => [] | S k' => MNew sharded id :: proxy_news sharded k' (id + 1) end.
+Fixpoint proxy_closes (k : nat) (m : nat) : list mop :=
+  match k with O => [] | S k' => MClose m :: MClose m :: proxy_closes k' (S m) end.
+Definition proxy_ops (nstores : nat) (sharded : bool) : list mop :=
+  proxy_news sharded nstores 0 ++ proxy_closes nstores 0.
+
 Definition corr_ok (c : case) : bool :=
   match c with
   | CPool sizes maxt ops obs => list_eqb pobs_eqb (prun true sizes maxt pinit ops) obs
@@ -156,12 +174,11 @@ Definition corr_ok (c : case) : bool :=
     | Some st => list_eqb N.eqb (sort_n (mpool st)) drained
     | None => false
     end
-  end.
-
-Fixpoint nodup_n (l : list N) : bool :=
-  match l with
-  | [] => true
-  | a :: r => negb (existsb (N.eqb a) r) && nodup_n r
+  | CProxy k sharded dup =>
+    match mrun true minit (proxy_ops k sharded) with
+    | Some st => Bool.eqb dup (negb (nodup_n (mpool st)))
+    | None => false
+    end
   end.
 
 (* outstanding = gets that succeeded minus puts, replayed on the observations *)
@@ -196,4 +213,5 @@ Definition pred_ok (c : case) : bool :=
        returned — hence is 0 once everything is returned *)
   | CShard ops drained => nodup_n (drained ++ somes (held_open ops []))
     (* no buffer sits in the pool twice, and none is both in the pool and held by an open matcher *)
+  | CProxy _ _ dup => negb dup
   end.
